@@ -98,6 +98,8 @@ def scalar_mult(x, y, out=None):
     y = y.to(x)
     if out is None:
         out = torch.zeros(2, *((real(x) * real(y)).shape)).to(x)
+    elif out.shape != (2, *torch.broadcast_shapes(real(x).shape, real(y).shape)):
+        raise ValueError("out does not have the shape of the result!")
 
     torch.mul(real(x), real(y), out=real(out)).sub_(torch.mul(imag(x), imag(y)))
     torch.mul(real(x), imag(y), out=imag(out)).add_(torch.mul(imag(x), real(y)))
